@@ -200,6 +200,9 @@ pub struct SinkLog {
     pub first_error_call: Option<usize>,
     pub short_writes: usize,
     pub dropped: bool,
+    /// staging sinks only: bytes accepted by `write` that no successful `flush` has committed yet
+    pub staged: Vec<u8>,
+    pub flush_interrupts_returned: usize,
 }
 
 /// Marker payload of injected errors so that the harness can recognise its own error coming back.
@@ -229,6 +232,12 @@ pub struct FaultyWrite {
     rng: Rng,
     /// write-call indices (0-based over write calls) before which one `Interrupted` is returned
     interrupt_before: BTreeSet<usize>,
+    /// flush-call index (0-based over flush calls that are not interrupted) -> how many consecutive
+    /// `Interrupted` results precede it
+    interrupt_flush_before: std::collections::BTreeMap<usize, usize>,
+    /// a transactional / BufWriter-like destination: written bytes are only staged, a successful
+    /// flush commits them to `log.bytes`
+    staging: bool,
 }
 
 impl FaultyWrite {
@@ -244,7 +253,27 @@ impl FaultyWrite {
             accept,
             rng: Rng::new(seed, 0xFA, 0),
             interrupt_before: BTreeSet::new(),
+            interrupt_flush_before: Default::default(),
+            staging: false,
         }
+    }
+
+    /// `flush` call number `i` (counting completed flush calls) is preceded by `n` consecutive
+    /// `Interrupted` results.
+    pub fn with_flush_interrupts(mut self, at: impl IntoIterator<Item = (usize, usize)>) -> Self {
+        self.interrupt_flush_before = at.into_iter().collect();
+        self
+    }
+
+    /// Written bytes are staged and reach `bytes()` only through a successful `flush`.
+    pub fn with_staging(mut self) -> Self {
+        self.staging = true;
+        self
+    }
+
+    /// staged-but-uncommitted byte count (staging sinks)
+    pub fn staged_len(&self) -> usize {
+        self.log.lock().unwrap().staged.len()
     }
 
     pub fn healthy() -> Self {
@@ -297,12 +326,25 @@ impl Write for FaultyWrite {
         if n < buf.len() {
             log.short_writes += 1;
         }
-        log.bytes.extend_from_slice(&buf[..n]);
+        if self.staging {
+            log.staged.extend_from_slice(&buf[..n]);
+        } else {
+            log.bytes.extend_from_slice(&buf[..n]);
+        }
         Ok(n)
     }
 
     fn flush(&mut self) -> io::Result<()> {
         let mut log = self.log.lock().unwrap();
+        let fc = log.flush_calls;
+        if let Some(left) = self.interrupt_flush_before.get_mut(&fc) {
+            if *left > 0 {
+                *left -= 1;
+                log.interrupts_returned += 1;
+                log.flush_interrupts_returned += 1;
+                return Err(io::Error::new(io::ErrorKind::Interrupted, "verif: injected EINTR (flush)"));
+            }
+        }
         let call = log.calls;
         log.calls += 1;
         log.flush_calls += 1;
@@ -310,6 +352,10 @@ impl Write for FaultyWrite {
             log.errors_returned += 1;
             log.first_error_call.get_or_insert(call);
             return Err(io::Error::new(self.kind, Injected(call)));
+        }
+        if self.staging {
+            let staged = std::mem::take(&mut log.staged);
+            log.bytes.extend_from_slice(&staged);
         }
         Ok(())
     }
@@ -323,4 +369,14 @@ pub const ERROR_KINDS: &[io::ErrorKind] = &[
     io::ErrorKind::PermissionDenied,
     io::ErrorKind::UnexpectedEof,
     io::ErrorKind::TimedOut,
+    io::ErrorKind::InvalidInput,
+    io::ErrorKind::InvalidData,
+    io::ErrorKind::NotFound,
+    io::ErrorKind::ConnectionReset,
+    io::ErrorKind::ConnectionAborted,
+    io::ErrorKind::NotConnected,
+    io::ErrorKind::AlreadyExists,
+    io::ErrorKind::WouldBlock,
+    io::ErrorKind::Unsupported,
+    io::ErrorKind::OutOfMemory,
 ];
